@@ -4,7 +4,7 @@ from ..models.codec_model import LIMITS
 
 ASCII = "abcxyzABC 0123!#$%&()*+,-./:;<=>?@[]^_`{|}"
 HIGH = "€‚ƒ„…†‡ˆ‰Š‹ŒŽ‘’“”•–—˜™š›œžŸ¡¢£¤¥¦§¨©ª«¬®¯°±²³´µ¶·¸¹º»¼½¾¿ÀÁÂÆÇÈÉÑÒÓÖ×ØÙÜÝÞßàáâæçèéñòóö÷øùüýþ"
-NON_CP1252 = "ĀāĂ中文кирил😀\u0081\u008d\u0090\x00\x7f"
+NON_CP1252 = "ĀāĂ中文кирил😀\u0081\u008d\u0090\x00\x7f\u0308\u030a\u212a\u212b\u1100\u1161\u0301"   # incl. combining marks, Kelvin/Angstrom signs, jamo
 Y_DIAERESIS = "ÿ"
 
 
@@ -34,6 +34,9 @@ def gen_string(rng, max_len=12, allow_y=True, allow_tilde=True, allow_non_cp1252
         out.append(c)
     if style > 0.93 and allow_y and n:
         out = [Y_DIAERESIS] * n  # a string of nothing but y-diaeresis
+    elif 0.88 < style <= 0.93 and allow_non_cp1252 and n >= 2:
+        # not in Unicode normal form: base letter + combining mark (must NOT be composed by the library)
+        out[-2:] = [rng.choice("eAoun"), rng.choice("\u0308\u030a\u0301\u0303")]
     return "".join(out)
 
 
